@@ -5,6 +5,7 @@ says now).  `decide +kernel` evaluates the decision procedure inside the kernel:
 -/
 import EPV.Gen.C13Tables
 import EPV.Lemmas.USetUnmerge
+import EPV.Lemmas.USetDisjoint
 namespace EPV.C13
 open EPV.USet EPV.Gen.C13
 
@@ -22,14 +23,23 @@ theorem impl_mem_eq_unicodedata (k : String) (x : Nat) :
 /-- all tables stay below maxunicode + 1 -/
 theorem tables_bounded : ∀ t ∈ implTables, ∀ c ∈ t.2, c.hi ≤ maxCP1 := by decide +kernel
 
-/-- the blocks of the installed version (superseded aliases excluded), ordered by first code point:
-their concatenation is sorted and non-overlapping … -/
-theorem blocks_flat_winv : WInv (blocks.map (·.2)).flatten := by decide +kernel
+/-- the blocks of the installed version (superseded aliases excluded): kernel-evaluated pairwise
+disjointness test … -/
+theorem blocks_check : pairwiseDisjoint (blocks.map (·.2)) = true := by decide +kernel
 
 /-- … hence any two distinct blocks are disjoint as sets of code points -/
 theorem blocks_pairwise_disjoint :
     (blocks.map (·.2)).Pairwise (fun p q => ∀ x, ¬ (memL x p ∧ memL x q)) :=
-  winv_flatten_pairwise _ blocks_flat_winv
+  pairwiseDisjoint_sound _ blocks_check
+
+/-- block tables of older versions built *after* newer ones in the same process (16.0.0, 6.0.0,
+3.0.0, 2.1.9, then the default again) are still pairwise disjoint: the version machinery does not
+leak blocks from one installation into the next -/
+theorem hist_blocks_check : ∀ v ∈ histBlocks, pairwiseDisjoint v.2 = true := by decide +kernel
+
+theorem hist_blocks_disjoint (v) (hv : v ∈ histBlocks) :
+    v.2.Pairwise (fun p q => ∀ x, ¬ (memL x p ∧ memL x q)) :=
+  pairwiseDisjoint_sound _ (hist_blocks_check v hv)
 
 /-- kernel-evaluated certificate checks, for every major category `(M, flat, subcategories)`:
 `flat` is an interleaving of the subcategory tables, it is sorted/disjoint, and merging its
